@@ -1,10 +1,273 @@
-// Package c10: harness for property C10 (stub until built).
+// Package c10: non-voting delegation (x/shareclass) driven on the real application.
+//
+// A history of delegate / undelegate / claim / bank-send messages and blocks is executed on the
+// full application (real staking, distribution, bank, tokenconverter). Around every operation
+// the projection of the state the Coq model talks about is dumped; the case carries the dump
+// before, the operation, the answers of the oracle modules, the result class and the dump after.
 package c10
 
-import "fmt"
+import (
+	"fmt"
+	"math/big"
+	"os"
+	"time"
+
+	sdkmath "cosmossdk.io/math"
+	sdk "github.com/cosmos/cosmos-sdk/types"
+	authtypes "github.com/cosmos/cosmos-sdk/x/auth/types"
+
+	sctypes "github.com/sunriselayer/sunrise/x/shareclass/types"
+
+	"verifharness/emit"
+)
+
+const (
+	nUsers  = 5 // 0..3 act, 4 funds the fee collector and only receives
+	nVals   = 3
+	funder  = 4
+	secondN = int64(1_000_000_000)
+)
+
+type runner struct {
+	w     *world
+	r     *emit.Rand
+	cf    *emit.CasesFile
+	st    *emit.Stats
+	fresh [][]bool  // [user][validator]: claimed after the validator's last accrual
+	ent   [][][]*big.Rat // [user][validator][denom]: entitlement accrued so far (exact)
+	paid  [][][]*big.Int // [user][validator][denom]: paid so far
+	maxE  int
+}
+
+func newRunner(seed int64) *runner {
+	rn := &runner{w: newWorld(nVals, nUsers), r: emit.NewRand(seed*1000003 + 17)} // emit.NewRand streams of neighbouring seeds are one draw apart: spread them
+	me, err := rn.w.h.App.StakingKeeper.MaxEntries(rn.w.h.Ctx())
+	if err != nil {
+		panic(err)
+	}
+	rn.maxE = int(me)
+	for u := 0; u < nUsers; u++ {
+		rn.fresh = append(rn.fresh, make([]bool, nVals))
+		var er [][]*big.Rat
+		var pr [][]*big.Int
+		for v := 0; v < nVals; v++ {
+			var es []*big.Rat
+			var ps []*big.Int
+			for range denomNames {
+				es = append(es, new(big.Rat))
+				ps = append(ps, new(big.Int))
+			}
+			er = append(er, es)
+			pr = append(pr, ps)
+		}
+		rn.ent = append(rn.ent, er)
+		rn.paid = append(rn.paid, pr)
+	}
+	return rn
+}
+
+// do runs one op on the application and emits the case.
+func (rn *runner) do(o op, tag string) outcome {
+	w, h := rn.w, rn.w.h
+	if o.Kind == kBlock && !o.Fees.IsZero() {
+		if err := h.App.BankKeeper.SendCoinsFromAccountToModule(h.Ctx(), h.Accts[funder].Addr, authtypes.FeeCollectorName, o.Fees); err != nil {
+			panic(err)
+		}
+	}
+	pre := w.dump(h.Ctx())
+	now := h.Time.Add(o.Dt).UnixNano()
+	out := w.apply(o)
+	post := w.dump(h.Ctx())
+
+	leak := make([]*big.Int, len(denomNames))
+	for i := range leak {
+		leak[i] = big.NewInt(0)
+		if (o.Kind == kDelegate || o.Kind == kUndelegate) && out.Class == 0 {
+			leak[i].Sub(post.MB[i], pre.MB[i])
+		}
+	}
+	opTerm := o.coq()
+	if o.Kind == kBlock {
+		opTerm = fmt.Sprintf("(OEndBlock %d)", now)
+	}
+	// cells the message does not address and that did not change are not shown
+	hide := map[int]bool{}
+	if o.Kind != kBlock {
+		for v := range pre.Cells {
+			if v != o.V && pre.Cells[v].coq() == post.Cells[v].coq() {
+				hide[v] = true
+			}
+		}
+	}
+	postTerm := emit.None()
+	if !sameState(pre, post) {
+		postTerm = emit.Some(post.coqRel(&pre, hide))
+	}
+	fresh, grem := false, "[]"
+	actor := o.Kind == kClaim || o.Kind == kDelegate || o.Kind == kUndelegate
+	if actor && o.V >= 0 {
+		fresh = rn.fresh[o.U][o.V]
+		var rs []string
+		for d := range denomNames {
+			rem := new(big.Rat).Sub(rn.ent[o.U][o.V][d], new(big.Rat).SetInt(rn.paid[o.U][o.V][d]))
+			rs = append(rs, emit.App("zp", emit.Z(rem.Num()), emit.Z(rem.Denom())))
+		}
+		grem = emit.List(rs)
+	}
+	rw := make([]string, len(out.Rw))
+	for i, r := range out.Rw {
+		rw[i] = zlist(r)
+	}
+	rn.cf.Add(fmt.Sprintf("CStep (mkCase %s %d %d %s %s %s %s %d %s %s %s)", opTerm, out.Ct, rn.maxE, zlist(leak),
+		emit.List(rw), emit.Z(out.Released), pre.coqRel(nil, hide), out.Class, postTerm, emit.Bool(fresh), grem))
+
+	// statistics
+	kind := []string{"claim", "delegate", "undelegate", "send-share", "block"}[o.Kind]
+	rn.st.Count(fmt.Sprintf("%s:%d", kind, out.Class))
+	rn.st.Evaluations++
+	info := map[string]any{"op": o.String(), "class": out.Class, "tag": tag, "time": h.Time.Format(time.RFC3339Nano)}
+	if out.Err != "" {
+		info["err"] = out.Err
+	}
+	if actor && o.V >= 0 && out.Class == 0 {
+		paid := []string{}
+		any := false
+		for d := range denomNames {
+			p := new(big.Int).Sub(pre.Cells[o.V].S[d], post.Cells[o.V].S[d])
+			paid = append(paid, p.String())
+			any = any || p.Sign() > 0
+		}
+		info["paid"] = paid
+		distinct := map[string]bool{}
+		for _, s := range pre.Cells[o.V].Sh {
+			if s.Sign() > 0 {
+				distinct[s.String()] = true
+			}
+		}
+		if any {
+			rn.st.Count("claim-paid>0")
+			if len(distinct) >= 2 {
+				rn.st.Nontriv(fmt.Sprintf("%d/%d/%v", o.V, o.U, paid))
+				rn.st.Sample(info)
+			}
+		}
+		for d, l := range leak {
+			if l.Sign() > 0 {
+				rn.st.Count("hook-leak:" + denomNames[d])
+			}
+		}
+	}
+	if o.Kind == kBlock {
+		info["released"] = out.Released.String()
+		if len(pre.Queue) != len(post.Queue) {
+			rn.st.Count("block:paid-unbondings")
+		}
+		for _, q := range pre.Queue {
+			if q.Time/secondN == now/secondN && q.Time > now {
+				rn.st.Count("block:same-second-before-completion")
+				break
+			}
+		}
+	}
+	rn.st.Info(info)
+
+	// ghosts
+	if actor && o.V >= 0 && out.Class == 0 {
+		rn.fresh[o.U][o.V] = true
+		for d := range denomNames {
+			rn.paid[o.U][o.V][d].Add(rn.paid[o.U][o.V][d], new(big.Int).Sub(pre.Cells[o.V].S[d], post.Cells[o.V].S[d]))
+		}
+	}
+	if o.Kind == kBlock && out.Class == 0 {
+		for v := range w.vals {
+			for d := range denomNames {
+				// what the saver received is owed pro rata to the shares held now
+				if recv := new(big.Int).Sub(post.Cells[v].S[d], pre.Cells[v].S[d]); recv.Sign() > 0 && pre.Cells[v].T.Sign() > 0 {
+					for u := 0; u < nUsers; u++ {
+						x := new(big.Rat).SetFrac(new(big.Int).Mul(recv, pre.Cells[v].Sh[u]), pre.Cells[v].T)
+						rn.ent[u][v][d].Add(rn.ent[u][v][d], x)
+					}
+				}
+				if !pre.Cells[v].M[d].eq(post.Cells[v].M[d]) {
+					for u := 0; u < nUsers; u++ {
+						rn.fresh[u][v] = false
+					}
+				}
+			}
+		}
+	}
+	return out
+}
+
+func bi(x int64) *big.Int { return big.NewInt(x) }
+
+func coins(pairs ...any) sdk.Coins {
+	cs := sdk.NewCoins()
+	for i := 0; i+1 < len(pairs); i += 2 {
+		cs = cs.Add(sdk.NewCoin(pairs[i].(string), sdkmath.NewIntFromBigInt(pairs[i+1].(*big.Int))))
+	}
+	return cs
+}
+
+// corpus: the witnesses of the repaired defects and of the known findings, run first.
+func (rn *runner) corpus() {
+	h := rn.w.h
+	ms := time.Millisecond
+	rn.do(op{Kind: kDelegate, U: 0, V: 0, Amt: bi(1_000_000)}, "corpus")
+	rn.do(op{Kind: kDelegate, U: 1, V: 0, Amt: bi(3_000_000)}, "corpus")
+	rn.do(op{Kind: kDelegate, U: 2, V: 1, Amt: bi(2_000_000)}, "corpus")
+	rn.do(op{Kind: kBlock, Dt: 1300 * ms, Fees: coins("urise", bi(3_000_000), "uusdc", bi(500_000))}, "corpus")
+	rn.do(op{Kind: kBlock, Dt: 1300 * ms}, "corpus")
+	// checkpoint witness: the same rewards must not be claimable again, and u1 must still be paid
+	rn.do(op{Kind: kClaim, U: 0, V: 0}, "corpus:checkpoint")
+	rn.do(op{Kind: kClaim, U: 0, V: 0}, "corpus:checkpoint")
+	rn.do(op{Kind: kClaim, U: 0, V: 0}, "corpus:checkpoint")
+	rn.do(op{Kind: kClaim, U: 1, V: 0}, "corpus:checkpoint")
+	rn.do(op{Kind: kDelegate, U: 1, V: 0, Amt: bi(1)}, "corpus:checkpoint")
+	rn.do(op{Kind: kSend, U: 0, U2: 3, V: 0, Amt: bi(5)}, "corpus:send")
+	// unbonding that completes at a sub-second offset (.6 s), paid to a third party
+	rn.do(op{Kind: kUndelegate, U: 2, V: 1, Amt: bi(500_000), Rcp: 3}, "corpus:subsecond")
+	// seven undelegations of one delegator in distinct blocks, then another delegator's
+	for i := 0; i < 7; i++ {
+		rn.do(op{Kind: kUndelegate, U: 0, V: 0, Amt: bi(2), Rcp: -3}, "corpus:max-entries")
+		rn.do(op{Kind: kBlock, Dt: 1100 * ms}, "corpus:max-entries")
+	}
+	rn.do(op{Kind: kUndelegate, U: 1, V: 0, Amt: bi(1000), Rcp: -3}, "corpus:max-entries")
+	// a block in the second of the first completion, before it
+	q := rn.w.dump(h.Ctx()).Queue
+	if len(q) > 0 {
+		first := q[0].Time
+		target := time.Unix(0, first-first%secondN).Add(100 * ms)
+		if out := rn.do(op{Kind: kBlock, Dt: target.Sub(h.Time)}, "corpus:subsecond"); out.Class != 0 {
+			rn.st.Notes = append(rn.st.Notes, "EndBlock failed in the second of a completion, before it: "+out.Err)
+		}
+		rn.do(op{Kind: kBlock, Dt: time.Unix(0, first).Sub(h.Time)}, "corpus:subsecond")
+		rn.do(op{Kind: kBlock, Dt: 2 * time.Second}, "corpus:subsecond")
+	}
+}
 
 // Run generates n cases from seed, runs them on the real application and writes
 // cases_*.v and stats.json into outDir.
 func Run(seed int64, n int, outDir string) error {
-	return fmt.Errorf("c10: harness not built yet")
+	if os.Getenv("C10_SPIKE") != "" {
+		return spike()
+	}
+	rn := newRunner(seed)
+	defer rn.w.h.Close()
+	rn.st = emit.NewStats("C10", seed, "step: one message or block on the full application, compared with the model on the dumped state; non-trivial when a claim (explicit or inside delegate/undelegate) paid > 0 while >= 2 delegators of the validator held different share amounts, distinct by (validator, user, amounts paid). pure: types.Calculate* on generated integers")
+	rn.cf = &emit.CasesFile{Import: "Stake.C10Check", Runner: "run", Type: "c10_any"}
+	rn.corpus()
+	for i := 0; i < n; i++ {
+		rn.genStep()
+	}
+	for i := 0; i < n/2; i++ {
+		rn.genPure()
+	}
+	rn.st.Extra["final_time"] = rn.w.h.Time.Format(time.RFC3339Nano)
+	if _, err := rn.cf.Write(outDir, "cases", 40); err != nil {
+		return err
+	}
+	return rn.st.Write(outDir)
 }
+
+var _ = sctypes.ModuleName
